@@ -68,6 +68,43 @@ def _phase(ctx: Ctx, name: str, t0: float):
     ctx.extra.setdefault("phase_s", {})[name] = round(time.time() - t0, 1)
 
 
+def _ov(a, b):
+    return min(a[2], b[2]) > max(a[0], b[0]) and min(a[3], b[3]) > max(a[1], b[1])
+
+
+def features_of(net: list[dict], ev: dict, clause: str) -> dict:
+    """Bookkeeping for the known-findings matcher (never used for the judgement).
+    hard_touched: some hard/fixed module was changed.  culprit: the kind(s) of the modules whose GROWN trunk (a branch
+    was fused into it) now overlaps an enabled rectangle / leaves the die (noOverlap) or has an enabled branch that is
+    no longer attached at its edge within its extent (stillAttached): soft | hard | both | none."""
+    after, en, cfg = ev["after"], ev["en"], ev["cfg"]
+    hard = [md["kind"] != "soft" for md in net]
+    hard_touched = any(h and (len(en[m]) != len(net[m]["rects"]) or after[m] != cfg[m]) for m, h in enumerate(hard))
+    culprits = set()
+    for m, md in enumerate(net):
+        t = after[m][0]
+        if t == cfg[m][0] or 1 not in en[m]:
+            continue
+        bad = False
+        if clause == "noOverlap":
+            for k in range(len(net)):
+                for i in en[k]:
+                    if (k, i) != (m, 1) and _ov(t, after[k][i - 1]):
+                        bad = True
+        elif clause == "stillAttached":
+            for i in en[m]:
+                if i == 1:
+                    continue
+                b, s = after[m][i - 1], md["roles"][i - 1]
+                att = {"N": b[1] == t[3], "S": b[3] == t[1], "E": b[0] == t[2], "W": b[2] == t[0]}[s]
+                ext = (t[0] <= b[0] and b[2] <= t[2]) if s in "NS" else (t[1] <= b[1] and b[3] <= t[3])
+                bad = bad or not (att and ext)
+        if bad:
+            culprits.add("hard" if hard[m] else "soft")
+    culprit = "both" if len(culprits) == 2 else (culprits.pop() if culprits else "none")
+    return {"clause": clause, "hard_touched": hard_touched, "culprit": culprit, "modules": min(len(net), 2)}
+
+
 def decide(ctx: Ctx, cases: list[dict], source: str) -> int:
     prepare_imports()
     import frame.netlist.netlist  # noqa: F401
@@ -114,13 +151,8 @@ def decide(ctx: Ctx, cases: list[dict], source: str) -> int:
                 ctx.count(digest([t["w"], t["net"], ev["cfg"]]), nontrivial=changed, n=0)
         for (l, clause) in v["fails"]:
             ev = t["events"][l - 1]
-            hard_touched = any(md["kind"] != "soft" and (len(ev["en"][m]) != len(md["rects"]) or ev["after"][m] != ev["cfg"][m])
-                               for m, md in enumerate(t["net"]))
-            trunk_grew = any(md["kind"] == "soft" and ev["after"][m][0] != ev["cfg"][m][0] for m, md in enumerate(t["net"]))
             ctx.violation(clause, {"w": t["w"], "net": t["net"], "cfg": ev["cfg"], "variants": [x.split("/") for x in owners[key]]},
-                          {"after": ev["after"], "enabled": ev["en"]},
-                          {"clause": clause, "hard_touched": hard_touched, "soft_trunk_grew": trunk_grew,
-                           "modules": min(len(t["net"]), 2)})
+                          {"after": ev["after"], "enabled": ev["en"]}, features_of(t["net"], ev, clause))
         failed = {l for (l, _c) in v["fails"]}
         for (l, _what) in v["drift"]:
             if l not in failed:
